@@ -103,6 +103,7 @@ let parse (inp : string list) : case =
          | Some id -> push g (Mop ("M", OpM id))
          | None -> push g Nodef)
       | ["G"; f] -> push g (Mop ("G", OpG (nz f)))
+      | ["W"] -> push g (Mop ("W", OpV))
       | ["Q"; a; b] ->
         (match Hashtbl.find_opt lid (int_of_string a), Hashtbl.find_opt lid (int_of_string b) with
          | Some ia, Some ib -> push g (Mop ("Q", OpQ (ia, ib)))
@@ -156,6 +157,7 @@ let obs_toks c (o : obs) : string list * bool (*dead*) =
   | ObsM cl -> "m" :: List.map (fun (f, s) -> if f then "F" else tok_of_n s) cl, false
   | ObsG rs -> "g" :: List.map (fun (v, id) -> tok_of_n v ^ ":" ^ evname c id) rs, false
   | ObsQ r -> [(if r then "q1" else "q0")], false
+  | ObsV v -> "v" :: List.map (fun (i, w) -> tok_of_n i ^ ":" ^ tok_of_n w) v, false
 
 (* run the model over one element list; returns one token group per element that produced output *)
 let model_run c (smp : n -> n list option) (els : elem list) : string list list =
@@ -218,6 +220,8 @@ let parse_obs c (kind : string) (toks : string list) : obs =
   | "RESET", "zok" :: rest ->
     (match parse_le rest with Some (l, e) -> ObsReset (l, e) | None -> raise Bad_obs)
   | "M", "m" :: rest -> ObsM (List.map (fun s -> if s = "F" then (true, N0) else (false, nz s)) rest)
+  | "W", "v" :: rest ->
+    ObsV (List.map (fun p -> match String.split_on_char ':' p with [i; w] -> (nz i, nz w) | _ -> (N0, N0)) rest)
   | "Q", ["q1"] -> ObsQ true
   | "Q", ["q0"] -> ObsQ false
   | "G", "g" :: rest ->
